@@ -6,6 +6,7 @@ an opaque atom that remembers what it was computed from (so derives-from queries
 Nothing is executed.
 """
 import ast
+from .model import clone as _clone
 from fractions import Fraction
 
 from .poly import (Rat, C, fn, mk_atom, REG, gamma, lem_abs, lem_min, lem_max, lem_exp, lem_log, lem_sqrt, lem_pow,
@@ -1029,7 +1030,7 @@ def balanced(s):
 def load_of(t):
     """a Load-context copy of an assignment target"""
     import copy
-    n = copy.deepcopy(t)
+    n = _clone(t)
     for x in ast.walk(n):
         if hasattr(x, 'ctx'):
             x.ctx = ast.Load()
